@@ -117,10 +117,14 @@ def scenarios(tier: str) -> list[tuple]:
         # a snapshot taken while another thread does two ordered writes on different trials must
         # not show the second write without the first
         out.append((cfg, (("get_all_dc",), ("finish", "claim")), 1 if tier == "quick" else 2))
+    # a snapshot taken while another thread of the same storage object is replaying a record
+    out.append(("jlist+snap", (("create_trial",), ("user_attr",)), 2))
+    if tier == "thorough":
+        out.append(("jlist+snap", (("create_trial", "create_trial"), ("finish", "user_attr2")), 2))
     # two threads of one caching client plus a foreign worker on the same database
     for p in [(("create_waiting",), ("get_all_trials",), ("claim_new", "finish_new")),
               (("create_trial",), ("get_all_trials",), ("finish_new",)),
-              (("create_waiting", "get_new"), ("get_waiting",), ("claim_new", "finish_new"))]:
+              (("create_waiting", "get_new"), ("get_waiting",), ("claim_new", "finish_new"))][:2 if tier == "quick" else None]:
         out.append(("cached+foreign", p, 1 if tier == "quick" else 2))
     # Part B: processes / threads at SQL-statement level on one SQLite file
     for cfg in SQL_CONFIGS:
@@ -192,6 +196,33 @@ class CachedForeignScenario(Scenario):
         raw = backends.open_rdb(env.raw_path)
         env._cleanup.append(raw.engine.dispose)
         return [env.storage] * (n - 1) + [raw]
+
+
+class JlistSnapScenario(Scenario):
+    """Threads sharing one JournalStorage over a snapshot-capable backend, with a snapshot after
+    every created trial (the module's SNAPSHOT_INTERVAL is rebound to 1 for the run): a worker that
+    starts from the latest snapshot plus the tail must see what the live storage sees."""
+
+    def env_config(self) -> str:
+        return "jlist"
+
+    def execute(self, ch: Chooser) -> dict:
+        import optuna.storages.journal._storage as jm
+
+        old, jm.SNAPSHOT_INTERVAL = jm.SNAPSHOT_INTERVAL, 1
+        try:
+            return super().execute(ch)
+        finally:
+            jm.SNAPSHOT_INTERVAL = old
+
+    def after_run(self, env: Any, final: Any) -> dict:
+        from .linz import dump
+
+        if env._shared.get("snapshot") is None:
+            return {}
+        fresh = env.reopen()
+        got = dump(fresh)
+        return {"diverged": ["snapshot+tail opener"]} if got != final else {}
 
 
 def build_programs(names: tuple) -> list[list[tuple]]:
@@ -272,6 +303,12 @@ def scenario_task(task: tuple) -> dict:
 
         _thx.install_copy_points(enabled=False)
         sc = CachedForeignScenario(cfg, "std", build_programs(names), [importlib.import_module(m) for m in THREAD_CONFIGS["cached"]])
+        engine = "thx"
+    elif cfg == "jlist+snap":
+        from . import thx as _thx
+
+        _thx.install_copy_points(enabled=True)
+        sc = JlistSnapScenario(cfg, "std", build_programs(names), [importlib.import_module(m) for m in THREAD_CONFIGS["jlist"]])
         engine = "thx"
     else:
         mods = [importlib.import_module(m) for m in THREAD_CONFIGS[cfg]]
@@ -358,6 +395,11 @@ def replay_case(raw: dict, part: Part) -> None:
 
         _thx.install_copy_points(enabled=False)
         sc = CachedForeignScenario(cfg, "std", build_programs(names), [importlib.import_module(m) for m in THREAD_CONFIGS["cached"]])
+    elif cfg == "jlist+snap":
+        from . import thx as _thx
+
+        _thx.install_copy_points(enabled=True)
+        sc = JlistSnapScenario(cfg, "std", build_programs(names), [importlib.import_module(m) for m in THREAD_CONFIGS["jlist"]])
     else:
         from . import thx as _thx
 
